@@ -1,6 +1,12 @@
 use num_traits::{One, PrimInt, Zero};
 
 pub fn primitive_root(prime: u64) -> Option<u64> {
+    // the multiplicative group mod 2 is trivial: its only element, 1, generates it.
+    // (the search below starts at 2, so it would find nothing and report None)
+    if prime == 2 {
+        return Some(1);
+    }
+
     let test_exponents: Vec<u64> = distinct_prime_factors(prime - 1)
         .iter()
         .map(|factor| (prime - 1) / factor)
